@@ -3,6 +3,7 @@
 package main
 
 import (
+	"regexp"
 	"encoding/json"
 	"flag"
 	"fmt"
@@ -104,6 +105,17 @@ func cmdCheck(args []string) int {
 	seed, _ := strconv.Atoi(os.Getenv("VERIF_SEED"))
 	start := time.Now()
 
+	if err := altRepo(); err != nil {
+		fmt.Fprintln(os.Stderr, err)
+		return 2
+	}
+	if harnessDir != "/verif/harness" {
+		defer os.RemoveAll(harnessDir)
+	}
+	if err := genRegistry(); err != nil {
+		fmt.Fprintln(os.Stderr, "registry generation failed:", err)
+		return 2
+	}
 	l, err := load()
 	if err != nil {
 		fmt.Fprintln(os.Stderr, "load failed:", err)
@@ -134,9 +146,6 @@ func cmdCheck(args []string) int {
 		rwg.Add(1)
 		go func() {
 			defer rwg.Done()
-			if replayErr = genRegistry(l); replayErr != nil {
-				return
-			}
 			replayBin, replayErr = buildReplayBinary()
 		}()
 	}
@@ -275,12 +284,25 @@ func loadKnown(prop string) []interp.KnownRegion {
 	return out
 }
 
-// genRegistry regenerates the harness registry used by the native replay test.
-func genRegistry(l *Loaded) error {
+// genRegistry regenerates the harness registry used by the native replay test from the
+// harness sources (textually, so that it can run before the packages are type-checked).
+func genRegistry() error {
+	files, err := filepath.Glob(filepath.Join(harnessDir, "h", "*.go"))
+	if err != nil {
+		return err
+	}
+	re := regexp.MustCompile(`(?m)^func (H_[A-Za-z0-9_]+)\(\)`)
 	var names []string
-	for name, m := range l.HPkg.Members {
-		if _, ok := m.(*ssa.Function); ok && strings.HasPrefix(name, "H_") {
-			names = append(names, name)
+	for _, f := range files {
+		if strings.HasSuffix(f, "zz_registry.go") || strings.HasSuffix(f, "_test.go") {
+			continue
+		}
+		b, err := os.ReadFile(f)
+		if err != nil {
+			return err
+		}
+		for _, m := range re.FindAllStringSubmatch(string(b), -1) {
+			names = append(names, m[1])
 		}
 	}
 	sort.Strings(names)
@@ -301,6 +323,9 @@ func genRegistry(l *Loaded) error {
 func buildReplayBinary() (string, error) {
 	os.MkdirAll(filepath.Join(verifDir, "bin"), 0o755)
 	bin := filepath.Join(verifDir, "bin", "replay.test")
+	if harnessDir != "/verif/harness" {
+		bin = filepath.Join(harnessDir, "replay.test")
+	}
 	cmd := exec.Command("go", "test", "-c", "-vet=off", "-o", bin, "./h")
 	cmd.Dir = harnessDir
 	cmd.Env = append(os.Environ(), "GOFLAGS=-mod=mod", "GOPROXY=off", "GOSUMDB=off", "GOTOOLCHAIN=local")
